@@ -454,7 +454,26 @@ func runC20(h *Harness) {
 	before := outside()
 	stores := map[string]string{} // URL -> store directory
 	usedLocs := map[string]bool{}
-	checkQuiescent := func(n *Node, when string) {
+	var checkQuiescent func(n *Node, when string)
+	cleanupAndCheck := func(n *Node, c int, how string) {
+		h.Cleanup(n)
+		h.Settle(2 * time.Second)
+		h.Settle(40 * time.Second) // in-flight work of the old instance may still be retrying; it must end
+		h.R.Checks++
+		if alive := h.S.AliveTasks(n.Name); len(alive) > 0 {
+			var short []string
+			for _, a := range alive {
+				short = append(short, shortKey(a))
+			}
+			h.Violation("C20.lifecycle-leak", "goroutine-leak:"+how+leakClass(alive), "cycle %d: %d task(s) of the instance are still alive 42 s after Cleanup%s: %v", c+1, len(alive), map[bool]string{true: " (" + how + ")"}[how != ""], short)
+		}
+		h.R.Checks++
+		if open := h.Disk.OpenDatabases(); len(open) > 0 {
+			h.Violation("C20.lifecycle-leak", "db-handles-open", "cycle %d: 42 s after Cleanup %d database(s) of the instance are still open (their locks are held): %v", c+1, len(open), open)
+		}
+		checkQuiescent(n, fmt.Sprintf("cycle %d after cleanup", c+1))
+	}
+	checkQuiescent = func(n *Node, when string) {
 		h.R.Checks++
 		tree := h.TreeOf(n)
 		if tmp := tmpArtefacts(tree); len(tmp) > 0 {
@@ -532,6 +551,20 @@ func runC20(h *Harness) {
 			}
 			h.Violation("C20.provision", "provision-failed:"+cls, "cycle %d: Provision on the work_dir failed: %v", c+1, err)
 			return
+		}
+		// Cleanup that arrives while the updater is still in its very first pass: the configured origin, good while
+		// Provision ran, stalls now; a second later the instance is cleaned up. Nothing of it may stay behind.
+		if len(cfg.CRLUrls) > 0 && tp.Chance(1, 3) {
+			locs[0].State, locs[0].StallFor = oStall, 20*time.Second
+			h.Settle(time.Second)
+			locs[0].State, locs[0].StallFor = oGood, 0 // the one request in flight hangs for its 20 s; the retry after it is served
+			h.Probe("cleanup-during-first-updater-pass")
+			h.R.NonTrivial = true
+			cleanupAndCheck(n, c, "first-updater-pass:")
+			if len(h.R.Violations) > 0 {
+				return
+			}
+			continue
 		}
 		h.Quiesce()
 		checkQuiescent(n, fmt.Sprintf("cycle %d after provision", c+1))
@@ -770,22 +803,7 @@ func runC20(h *Harness) {
 			}, h.S.Now()+10*time.Minute+time.Second)
 			h.Probe("cleanup-with-refresh-in-flight")
 		}
-		h.Cleanup(n)
-		h.Settle(2 * time.Second)
-		h.Settle(40 * time.Second) // in-flight work of the old instance may still be retrying; it must end
-		h.R.Checks++
-		if alive := h.S.AliveTasks(n.Name); len(alive) > 0 {
-			var short []string
-			for _, a := range alive {
-				short = append(short, shortKey(a))
-			}
-			h.Violation("C20.lifecycle-leak", "goroutine-leak:"+leakClass(alive), "cycle %d: %d task(s) of the instance are still alive 42 s after Cleanup: %v", c+1, len(alive), short)
-		}
-		h.R.Checks++
-		if open := h.Disk.OpenDatabases(); len(open) > 0 {
-			h.Violation("C20.lifecycle-leak", "db-handles-open", "cycle %d: 42 s after Cleanup %d database(s) of the instance are still open (their locks are held): %v", c+1, len(open), open)
-		}
-		checkQuiescent(n, fmt.Sprintf("cycle %d after cleanup", c+1))
+		cleanupAndCheck(n, c, "")
 		if len(h.R.Violations) > 0 {
 			return
 		}
